@@ -185,8 +185,19 @@ Definition C14_b (c : c14case) : bool :=
 (* 0 agree & holds | 1 disagree | 2 property predicate fails | 4 agree up to an exact tie *)
 (* a disagreement with the model is reported (1) even when the predicate also fails for a known
    reason: otherwise a regression on a configuration hit by a known finding would be masked *)
-Definition verdict (c : c14case) : nat :=
+Definition verdict1 (c : c14case) : nat :=
   if agree c then (if C14_b c then 0%nat else 2%nat)
   else if existsb (fun tc => has_ties (tc_in tc) || tc_fragile tc) (c_types c)
        then (if C14_b c then 4%nat else 2%nat)
   else 1%nat.
+
+Definition verdict (c : c14case) : nat := verdict1 c.
+
+(* several select() calls on ONE selector object (each compared with the model run on its own
+   input: the object must keep no state between calls): the worst verdict *)
+Definition verdict_seq (cs : list c14case) : nat :=
+  let vs := map verdict1 cs in
+  if existsb (Nat.eqb 1) vs then 1%nat
+  else if existsb (Nat.eqb 2) vs then 2%nat
+  else if existsb (Nat.eqb 4) vs then 4%nat
+  else 0%nat.
